@@ -6,6 +6,7 @@ import (
 	"reflect"
 	"regexp"
 	"strconv"
+	"strings"
 
 	"github.com/shopspring/decimal"
 	"github.com/tyler-sommer/stick"
@@ -34,6 +35,8 @@ func (p *c15) Init(tier string, seed int64) {
 		99999, 100000, 999999, 1000000, 1000001, 16777216, 16777217, 2147483647, -2147483648, 4294967295, 4294967296,
 		123456789, 1e9, 1e12, 1e15, 999999999999999, 1 << 53, -(1 << 53), (1 << 53) - 1,
 		// beyond 2^24: integers that a float32 still holds exactly (few significant bits)
+		// beyond 2^53: integers no float64 holds
+		1<<53 + 1, -(1<<53 + 1), 1<<62 + 1, math.MaxInt64, math.MinInt64, math.MaxInt64 - 1,
 		1 << 25, 1 << 27, 5 << 26, 1 << 31, -(1 << 31), 3 << 30, 1 << 40, 1 << 52, 12345678 << 8, (1<<24 - 1) << 20, 33554434, -(1 << 27)}
 	p.nZoo, p.nInts = len(p.zoo), len(p.ints)
 	p.nI16 = 65536 / 512
@@ -100,6 +103,10 @@ func carriers(n int64) []gen.Named {
 	}
 	// defined types (type Level int) are Go numeric types as well
 	add("defined type on int", gen.KeyInt(n))
+	add("defined type on int64", gen.NamedI64(n))
+	if n >= 0 {
+		add("defined type on uint64", gen.NamedU64(n))
+	}
 	if n >= 0 && n <= math.MaxUint8 {
 		add("defined type on uint8", gen.NamedU8(n))
 	}
@@ -315,6 +322,17 @@ func (p *c15) Run(i int) (res fw.Result) {
 			if f >= 0 {
 				sp = append(sp, "+"+sp[0], "00"+sp[0])
 			}
+			// a decimal point needs no digit on both sides: .5, -.5, 5.
+			for _, t := range sp[:len(sp):len(sp)] {
+				switch {
+				case strings.HasPrefix(t, "0.") && !strings.ContainsAny(t, "eE"):
+					sp = append(sp, t[1:], "+"+t[1:])
+				case strings.HasPrefix(t, "-0.") && !strings.ContainsAny(t, "eE"):
+					sp = append(sp, "-"+t[2:])
+				case !strings.ContainsAny(t, ".eEnN") && len(t) < 17:
+					sp = append(sp, t+".", t+".0", t+"e0", t+"E+0")
+				}
+			}
 			for _, s := range sp {
 				res.Evals++
 				if got := stick.CoerceNumber(s); !sameNum(got, f) && !(f == 0 && got == 0) {
@@ -329,7 +347,7 @@ func (p *c15) Run(i int) (res fw.Result) {
 }
 
 func (p *c15) Rule() string {
-	return "cases: every value of the Go-value zoo (nil, bools, every numeric kind at boundaries, float specials, strings incl. numeric spellings and invalid UTF-8, decimals, Stringer/Number/Boolean implementers by value and by pointer, typed nil pointers, slices, maps, arrays, structs, funcs, chans, complex, nested safe wrappers) for totality, fallback ('',0,false for unsupported kinds) and wrapper transparency at 1..3 levels; 51 boundary integers (incl. integers beyond 2^24 that a float32 still holds exactly) and the whole int16 range carried by every Go numeric kind that holds them exactly, including defined types (type T int / uint8 / float32 / float64) (same string/number/truth value, plain decimal string); seeded random float64 bit patterns, dyadic/decimal fractions and integral floats for float64->string->number identity (bit-exact; half of them right after the nearest float32 was printed, and printed twice) and plain-integer printing below 10^6; decimal numeric strings in 5-7 spellings (shortest, %e with 17 digits, %E, fixed, fixed with 20 decimals, leading '+', leading zeros) for string->number. Non-trivial: all enumerated values are distinct by construction; random floats/strings deduplicated by spelling."
+	return "cases: every value of the Go-value zoo (nil, bools, every numeric kind at boundaries, float specials, strings incl. numeric spellings and invalid UTF-8, decimals, Stringer/Number/Boolean implementers by value and by pointer, typed nil pointers, slices, maps, arrays, structs, funcs, chans, complex, nested safe wrappers) for totality, fallback ('',0,false for unsupported kinds) and wrapper transparency at 1..3 levels; 57 boundary integers (incl. 2^53+1, MaxInt64, MinInt64) (incl. integers beyond 2^24 that a float32 still holds exactly) and the whole int16 range carried by every Go numeric kind that holds them exactly, including defined types (type T int / uint8 / float32 / float64) (same string/number/truth value, plain decimal string); seeded random float64 bit patterns, dyadic/decimal fractions and integral floats for float64->string->number identity (bit-exact; half of them right after the nearest float32 was printed, and printed twice) and plain-integer printing below 10^6; decimal numeric strings in 5-7 spellings (shortest, %e with 17 digits, %E, fixed, fixed with 20 decimals, leading '+', leading zeros, no digit before or after the decimal point, exponent zero) for string->number. Non-trivial: all enumerated values are distinct by construction; random floats/strings deduplicated by spelling."
 }
 
 func (p *c15) Assumptions() []string {
